@@ -266,7 +266,7 @@ def resolve_all():
     obs: List[Ob] = []
     func = ME + ".resolve_all_macros"
     for n in (0, 1, 2, 3):
-        for leftover in ("none", "ghost", "scan"):
+        for leftover in ("none", "ghost", "scan", "scan-defined"):
             log: List[Any] = []
 
             def fn():
@@ -282,6 +282,8 @@ def resolve_all():
 
                 def collect(self_e, tree):
                     log.append(("collect", tree))
+                    if leftover == "scan-defined":
+                        return {"@m1"}        # a name that HAS a definition but is still in the expanded tree
                     return {"@leftover"} if leftover == "scan" else set()
                 cls._apply_macro_recursively, cls._collect_macro_names = apply, collect
                 try:
@@ -294,7 +296,7 @@ def resolve_all():
             runr = sym_run(fn)
             for i, p in enumerate(runr.paths):
                 base = f"resolve_all_macros:n={n}:{leftover}:p{i}"
-                must_raise = (leftover == "ghost" and n >= 1) or leftover == "scan"
+                must_raise = (leftover == "ghost" and n >= 1) or leftover in ("scan", "scan-defined")
                 if must_raise:
                     ok = p.kind == "exc" and isinstance(p.value, ValueError)
                     obs.append(simple_ob(base + ":EXC", func, "EXC",
